@@ -79,7 +79,7 @@ def generate(run_seed, tier):
     return spec
 
 
-def _mk(spec, twin=None):
+def _mk(spec, twin=None, force_out=None):
     import dask_expr as dx
 
     pdf = W.make_table(spec["table"])
@@ -96,6 +96,8 @@ def _mk(spec, twin=None):
         kw["max_branch"] = mb
     if spec["n_out"]:
         kw["npartitions"] = spec["n_out"]
+    elif force_out is not None:
+        kw["npartitions"] = force_out
     if spec["ignore_index"]:
         kw["ignore_index"] = True
     if spec["on"] is None:
@@ -106,11 +108,14 @@ def _mk(spec, twin=None):
 
 
 def _partitions(ses, coll, world, fuse, monitor=False):
-    opt = coll.optimize(fuse=fuse)
-    dsk = dict(opt.__dask_graph__())
-    keys = opt.__dask_keys__()
-    out = ses.run(lambda sch: sch.get(dsk, keys), world, monitor=monitor, observe_fn=lambda parts: parts)
-    return out, opt
+    def thunk(sch):
+        opt = coll.optimize(fuse=fuse)
+        dsk = dict(opt.__dask_graph__())
+        keys = opt.__dask_keys__()
+        return sch.get(dsk, keys)
+
+    out = ses.run(thunk, world, monitor=monitor, observe_fn=lambda parts: parts)
+    return out, None
 
 
 def _keys_of(df, on):
@@ -218,7 +223,7 @@ def _execute(spec, ses, seam):
                         return _done(_viol("subset", "content", "partition %d: %s" % (p, why)), ses, counters, spec, seam, faults)
     # twin frame: same key values in another numeric dtype -> same partition number
     if spec.get("twin") and key_part is not None:
-        tpdf, tsrc, tsh = _mk(spec, twin=spec["twin"])
+        tpdf, tsrc, tsh = _mk(spec, twin=spec["twin"], force_out=n_out)
         out, _ = _partitions(ses, tsh, S.World.from_json(spec["worlds"][0]), fuse)
         counters["twin_checks"] += 1
         if out.cls == "ok":
